@@ -225,12 +225,16 @@ def run_shard(shard, tier, acc):
                 except Exception as e:
                     acc.violation("relabel", "relabel", "raises-" + type(e).__name__, case, sorted(want), repr(e)[:200])
                     continue
-                for form in ("array", "nx"):
+                for form in ("array", "nx", "nx-relabelled"):
                     try:
                         if form == "array":
                             m = rm.get_relabel_map(a0.copy(), np.asarray(r).copy())
-                        else:
+                        elif form == "nx":
                             m = rm.get_relabel_map(gq.nx_graph(n, e0), gq.nx_graph(n, sorted(want)))
+                        else:
+                            # the relabelled graph as networkx produces it: same insertion order, new names
+                            g1 = gq.nx_graph(n, e0)
+                            m = rm.get_relabel_map(g1, nx.relabel_nodes(g1, dict(enumerate(perm))))
                         bad = bad_map(n, G.norm(e0), want, m)
                         if bad:
                             acc.violation("relabel", "get_relabel_map", "map-is-not-an-isomorphism", dict(case, form=form), "isomorphism", bad)
